@@ -75,4 +75,15 @@ def canLoad (base : Nat → Bool) (k : KSt) (name : Nat) : KSt × Bool :=
     | some a => (k, a)
     | none => ({ k with cache := (name, base name) :: k.cache }, base name)
 
+/-- does `can_load(name)` go to the wrapped backend? -/
+def consults (k : KSt) (name : Nat) : Bool := k.listing.isNone && (k.cache.lookup name).isNone
+
+/-- a whole `jug status` worth of `can_load` calls: the answers, and the names for which the wrapped backend was asked, in order -/
+def canLoadRun (base : Nat → Bool) : KSt → List Nat → List Bool × List Nat
+  | _, [] => ([], [])
+  | k, n :: ns =>
+    let r := canLoad base k n
+    let rest := canLoadRun base r.1 ns
+    (r.2 :: rest.1, if consults k n then n :: rest.2 else rest.2)
+
 end Jug.Memo
